@@ -141,14 +141,61 @@ def extra_invariants(rng, g):
     if k < 0.84:
         return [["always", ["implies", ["fl", FL["b0"]], ["le", ["fl", FL["z"]], ["i", "2"]]]]]
     if k < 0.92:
-        return [["and", ["always", ["le", ["i", "-3"], ["fl", FL["x"]]]], ["always", ["or", ["fl", FL["b1"]], ["fl", FL["bq"], t1]]]]]
-    return [["forall", [["k", ["user", "S"]]], ["always", ["le", ["i", "-1"], ["fl", FL["xq"], ["v", "k", ["user", "S"]]]]]]]
+        return [["always", ["and", ["le", ["i", "-3"], ["fl", FL["x"]]], ["or", ["fl", FL["b1"]], ["fl", FL["bq"], t1]]]]]
+    return [["always", ["forall", [["k", ["user", "S"]]], ["le", ["i", "-1"], ["fl", FL["xq"], ["v", "k", ["user", "S"]]]]]]]
+
+
+G_INT = ["g", ["int", "_", "_"], [["int", "_", "_"]]]
+G_BOOL = ["gb", "bool", [["int", "_", "_"]]]
+FN_ARGS = list(range(-2, 5))      # covers xb : int[0,4] and xq : int[-2,3]
+
+
+def inject_ifuns(rng, ps):
+    """wrap some bounded-integer fluent reads into the interpreted function g, replace some Boolean fluent
+    reads by gb(bounded fluent) — in preconditions, effect conditions/values and goals (never in targets)"""
+    def f(n):
+        if n[0] == "fl":
+            ty = n[1][1]
+            if isinstance(ty, list) and ty[0] == "int" and ty[1] != "_" and ty[2] != "_" and rng.random() < 0.3:
+                return ["ifun", G_INT, n]
+            if ty == "bool" and rng.random() < 0.12:
+                return ["ifun", G_BOOL, ["fl", ["xb", ["int", "0", "4"], []]]]
+        return n
+    out = list(ps)
+    for i, sec in enumerate(ps):
+        if not isinstance(sec, list) or not sec:
+            continue
+        if sec[0] == "actions":
+            acts = []
+            for a in sec[1:]:
+                pre = ["pre"] + [_walk(c, f) for c in a[3][1:]]
+                effs = ["effs"] + [["eff", e[1], e[2], _walk(e[3], f), _walk(e[4], f), e[5]] for e in a[4][1:]]
+                acts.append(["action", a[1], a[2], pre, effs])
+            out[i] = ["actions"] + acts
+        elif sec[0] == "goals":
+            out[i] = ["goals"] + [_walk(g_, f) for g_ in sec[1:]]
+    return out
+
+
+def gen_tables(rng):
+    fns = []
+    for i in FN_ARGS:
+        fns.append([G_INT, [["n", str(i)]], ["n", str(rng.randint(-1, 3))]])
+    for i in FN_ARGS:
+        fns.append([G_BOOL, [["n", str(i)]], ["b", "T" if rng.random() < 0.5 else "F"]])
+    return fns
+
+
+def uses_ifuns(ps):
+    return '(ifun ' in sexp.dumps(ps)
 
 
 def gen_problem(rng, undefined=True):
     """one canonical problem (the real builders' view of a generated one), or None if kept out"""
     g = upp.ProblemGen(rng, undefined=undefined, invariants=True, metrics=False)
     ps = g.problem()
+    if rng.random() < 0.3:
+        ps = inject_ifuns(rng, ps)
     if rng.random() < 0.35:
         for j, sec in enumerate(ps):
             if isinstance(sec, list) and sec and sec[0] == "traj":
@@ -194,10 +241,20 @@ class Skip(Exception):
 class Real:
     def __init__(self, ps, fns=()):
         self.ps = ps
+        self.fns = list(fns)
         self.P, self.ctx = upp.build_problem(ps)
         self.objtype = dict(map(tuple, upp.get(ps, "objects")))
-        for ref, args, val in fns:
-            pass  # interpreted-function tables are installed by callers that use them
+        # interpreted functions are total tables shipped with the case: (ref (arg values) value)
+        for ref, args, val in self.fns:
+            key = tuple(Fraction(a[1]) if a[0] == "n" else (a[1] == "T") if a[0] == "b" else a[1] for a in args)
+            if val[0] == "n":
+                q = Fraction(val[1])
+                v = int(q) if q.denominator == 1 else q
+            elif val[0] == "b":
+                v = val[1] == "T"
+            else:
+                v = self.ctx.obj(val[1], dict(map(tuple, upp.get(ps, "objects")))[val[1]])
+            self.ctx.fun_tables.setdefault(ref[0], {})[key] = v
         self.keys = ground_keys(ps)
         em = self.ctx.em
         self.key_exps = [em.FluentExp(self.ctx.fluent(ref), tuple(em.ObjectExp(self.ctx.obj(o, self.objtype[o])) for o in objs))
@@ -270,6 +327,10 @@ class Real:
                 return sexp.B(sim.is_applicable(s, self.P.action(op[2]), self.params(op[3]))), None
             if h == "applicable":
                 got = [(a.name, [p.object().name for p in ps_]) for a, ps_ in sim.get_applicable_actions(s)]
+                if REPLACE_DIRTY_SIM and self.dirty(sim):
+                    # one of the internal is_applicable calls failed and left the shared walker dirty: the
+                    # answers for the remaining instances are unreliable (D-C14a)
+                    return TOLERATED, None
                 idx = {(n, tuple(a)): j for j, (n, a) in enumerate(self.instances)}
                 got.sort(key=lambda x: idx.get((x[0], tuple(x[1])), 10 ** 6))
                 return [[n, list(a)] for n, a in got], None
@@ -309,10 +370,10 @@ class Real:
         return out, slots
 
 
-def make_real(ps):
+def make_real(ps, fns=()):
     """Real(ps) or Skip: unsupported kind / initial state violating its own invariants"""
     try:
-        r = Real(ps)
+        r = Real(ps, fns)
     except UPUsageError:
         KEPT_OUT["unsupported-kind"] += 1
         raise Skip("unsupported kind")
@@ -414,8 +475,8 @@ def interleave_ops(real, rng, n_ops):
     return ops
 
 
-def payload(ps, ops):
-    return ["sim", ps, ["fn"], ["ops"] + ops]
+def payload(ps, ops, fns=()):
+    return ["sim", ps, ["fn"] + list(fns), ["ops"] + ops]
 
 
 # ------------------------------------------------------------------------------------------------
@@ -427,11 +488,18 @@ class Amb(Exception):
     with early exit may legitimately not have read it"""
 
 
-def _interp(ps, smap):
+def _fn_table(fns):
+    t = {}
+    for ref, args, val in fns:
+        t[(pyden.key(ref), tuple(pyden.val_of_sexp(a) for a in args))] = pyden.val_of_sexp(val)
+    return t
+
+
+def _interp(ps, smap, fns=()):
     doms = {}
     for n, _ in upp.get(ps, "types"):
         doms[pyden.key(["user", n])] = [("o", o) for o in upp.objects_of(ps, n)]
-    return {"fl": smap, "fn": {}, "par": {}, "dom": doms}
+    return {"fl": smap, "fn": _fn_table(fns), "par": {}, "dom": doms}
 
 
 def lazy_eval(e, I, rho=None):
@@ -549,12 +617,12 @@ def subst_vars(e, env):
     return [h] + [subst_vars(a, env) for a in e[1:]]
 
 
-def spec_successor(ps, pre, effs, smap, lazy):
+def spec_successor(ps, pre, effs, smap, lazy, fns=()):
     """The documented sequential semantics on a GROUND action (preconditions `pre`, effects `effs` as
     s-expressions) in the state `smap`.  Returns None (inapplicable) or the successor map.
     `lazy` selects the evaluator (strict reference denotation / early-exit one).  Raises Amb when the
     strict evaluator meets an undefined read."""
-    I = _interp(ps, smap)
+    I = _interp(ps, smap, fns)
     ev = (lambda e: lazy_eval(e, I)) if lazy else (lambda e: pyden.den(e, I))
 
     def need(e):
@@ -612,7 +680,7 @@ def spec_successor(ps, pre, effs, smap, lazy):
                 return None                   # reads a fluent with no value
             succ[k] = ("n", smap[k][1] + sum((v[1] for v in inc), Fraction(0)) - sum((v[1] for v in dec), Fraction(0)))
     # bounded types and state invariants must hold in the successor
-    I2 = _interp(ps, succ)
+    I2 = _interp(ps, succ, fns)
     for inv in problem_invariants(ps):
         v = pyden.den(inv, I2)
         if v is None:
@@ -624,15 +692,15 @@ def spec_successor(ps, pre, effs, smap, lazy):
     return succ
 
 
-def spec_outcomes(ps, pre, effs, smap):
+def spec_outcomes(ps, pre, effs, smap, fns=()):
     """set of acceptable outcomes (None or frozenset of successor items) under the property text"""
     try:
-        r = spec_successor(ps, pre, effs, smap, lazy=False)
+        r = spec_successor(ps, pre, effs, smap, False, fns)
         return [r]
     except Amb:
         # some expression reads an undefined fluent: 'never satisfied' (inapplicable) is always
         # acceptable; so is what the early-exit evaluator gives
-        r = spec_successor(ps, pre, effs, smap, lazy=True)
+        r = spec_successor(ps, pre, effs, smap, True, fns)
         return [None, r] if r is not None else [None]
 
 
@@ -679,11 +747,11 @@ def _succ_from_dump(real, dump):
     return m
 
 
-def _nontrivial_tags(ps, pre, effs, smap):
+def _nontrivial_tags(ps, pre, effs, smap, fns=()):
     """why a (state, instance) pair exercises the property: >= 2 fired effects on one ground fluent,
     a bounded / invariant fluent touched, an undefined fluent read"""
     tags = set()
-    I = _interp(ps, smap)
+    I = _interp(ps, smap, fns)
     objtype = dict(map(tuple, upp.get(ps, "objects")))
     inv_fluents = set()
     for tc in upp.get(ps, "traj"):
@@ -735,8 +803,8 @@ def _fmt_state(real, m):
 def analyse(pl):
     """runs the ops of a payload on the real code (one simulator instance, as impl does) and checks every
     answer against the documented semantics.  Returns (violation_or_None, set_of_tags, answers)."""
-    ps, ops = pl[1], pl[3][1:]
-    real = Real(ps)
+    ps, fns, ops = pl[1], pl[2][1:], pl[3][1:]
+    real = Real(ps, fns)
     answers, slots = real.run(ops)
     dumps = {}     # slot index -> dump of the state in it
     try:
@@ -772,8 +840,10 @@ def analyse(pl):
                 outcomes = [None]
             else:
                 pre, effs = g
-                tags |= _nontrivial_tags(ps, pre, effs, smap)
-                outcomes = spec_outcomes(ps, pre, effs, smap)
+                tags |= _nontrivial_tags(ps, pre, effs, smap, fns)
+                if uses_ifuns([pre, effs]):
+                    tags.add("interpreted-function-evaluated")
+                outcomes = spec_outcomes(ps, pre, effs, smap, fns)
                 if len(outcomes) > 1:
                     tags.add("ambiguous-undefined-read")
             if h == "apply":
@@ -788,7 +858,7 @@ def analyse(pl):
                 if not any((o is not None) == got for o in outcomes):
                     viol = viol or f"is_applicable {op[2]}{op[3]} in state {i} = {got}, documented semantics says {outcomes[0] is not None}"
         elif h in ("goal", "ugoals"):
-            I = _interp(ps, smap)
+            I = _interp(ps, smap, fns)
             strict = [pyden.den(g, I) for g in goals]
             lazy = [lazy_eval(g, I) for g in goals]
             if all(v is not None for v in strict):
@@ -818,13 +888,21 @@ def analyse_c02(pl):
     """C02 on the real code: is_applicable == (apply is not None); get_applicable_actions == the instances
     on which apply succeeds; is_goal == (get_unsatisfied_goals returns []); answering a query changes neither
     the states nor later answers (every answer == the same query on a fresh simulator; states re-read)."""
-    ps, ops = pl[1], pl[3][1:]
-    real = Real(ps)
+    ps, fns, ops = pl[1], pl[2][1:], pl[3][1:]
+    real = Real(ps, fns)
     answers, slots = real.run(ops)
     created = {}
     for j, (op, a) in enumerate(zip(ops, answers), start=1):
         if op[0] in ("init", "apply") and slots[j] is not None:
             created[j] = a
+    box = [real.fresh()]
+
+    def aux():
+        """a second, long-lived simulator for the cross-checks (swapped when its evaluator is dirty while
+        REPLACE_DIRTY_SIM is on)"""
+        if REPLACE_DIRTY_SIM and real.dirty(box[0]):
+            box[0] = real.fresh()
+        return box[0]
     for j, (op, a) in enumerate(zip(ops, answers), start=1):
         h = op[0]
         if h == "init":
@@ -842,12 +920,11 @@ def analyse_c02(pl):
         for k, d in created.items():
             if k <= j and slots[k] is not None and k in (i,) and real.dump(slots[k]) != d:
                 return f"state {k} changed after {sexp.dumps(op)}"
-        fresh = real.fresh()
         if h in ("apply", "isapp"):
             act, par = real.P.action(op[2]), real.params(op[3])
             try:
-                ia = fresh.is_applicable(s, act, par)
-                ap = fresh.apply(s, act, par)
+                ia = aux().is_applicable(s, act, par)
+                ap = aux().apply(s, act, par)
             except Exception as e:
                 return f"{h} {op[2]}{op[3]}: raised {type(e).__name__}"
             if ia != (ap is not None):
@@ -855,9 +932,8 @@ def analyse_c02(pl):
         elif h == "applicable" and not tolerated:
             want = []
             for an, args in real.instances:
-                f2 = real.fresh()
                 try:
-                    if f2.apply(s, real.P.action(an), real.params(args)) is not None:
+                    if aux().apply(s, real.P.action(an), real.params(args)) is not None:
                         want.append([an, list(args)])
                 except Exception as e:
                     return f"apply {an}{args} raised {type(e).__name__}"
@@ -865,11 +941,11 @@ def analyse_c02(pl):
                 return f"get_applicable_actions in state {i} = {sexp.dumps(a)}, apply succeeds exactly on {sexp.dumps(want)}"
         elif h in ("goal", "ugoals"):
             try:
-                ig = fresh.is_goal(s)
+                ig = aux().is_goal(s)
             except Exception as e:
                 return f"is_goal raised {type(e).__name__}"
             try:
-                ug = real.fresh().get_unsatisfied_goals(s)
+                ug = aux().get_unsatisfied_goals(s)
                 empty = len(ug) == 0
             except UPStateMissingFluentError:
                 empty = False
